@@ -681,6 +681,11 @@ func runC16(c *Ctx) {
 		lifeHandlerGate(c, "http")
 	}
 	if c.Tier == "thorough" {
+		lifeUDPRace(c, 6000)
+	} else {
+		lifeUDPRace(c, 1500)
+	}
+	if c.Tier == "thorough" {
 		lifeMetricsInflight(c, 35)
 	} else {
 		lifeMetricsInflight(c, 6)
@@ -1044,6 +1049,42 @@ func lifeMetricsInflight(c *Ctx, secs int) {
 		case <-time.After(time.Duration(secs+8) * time.Second):
 		}
 		return fmt.Sprintf("request_running_at_stop=%s stopped=%s request_ok=%s stop_completed_before_request=%s", b01(running), b01(stopped), b01(r.ok), b01(r.when.IsZero() || stopAt.Before(r.when.Add(-200*time.Millisecond))))
+	}()
+	c.Emit(op, obs)
+}
+
+// life.udp_race: Stop right after NewFrontend, many times, at graded distances: when Stop has completed the serving
+// goroutine (which NewFrontend has started) must be gone, not about to look at the frontend once more.
+func lifeUDPRace(c *Ctx, n int) {
+	op := fmt.Sprintf("life.udp_race n=%d", n)
+	c.Begin(op)
+	obs := func() (o string) {
+		defer func() {
+			if p := recover(); p != nil {
+				o = "PANIC " + strings.Fields(fmt.Sprint(p))[0]
+			}
+		}()
+		ps, lg := newStoreLogic()
+		defer func() { <-ps.Stop() }()
+		gone, pending := 0, 0
+		for i := 0; i < n; i++ {
+			g0 := goroutinesOf("frontend/udp.NewFrontend.func") + goroutinesOf("frontend/udp.(*Frontend).serve")
+			fe, err := udpfe.NewFrontend(lg, udpfe.Config{Addr: "127.0.0.1:0", PrivateKey: udpKey, MaxClockSkew: 10 * time.Second})
+			if err != nil {
+				return "new-failed"
+			}
+			for spin := (i % 40) * 100; spin > 0; spin-- {
+				runtime.Gosched()
+			}
+			if ok, _ := waitStop(fe.Stop(), 3*time.Second); !ok {
+				pending++
+				continue
+			}
+			if goroutinesOf("frontend/udp.NewFrontend.func")+goroutinesOf("frontend/udp.(*Frontend).serve") <= g0 {
+				gone++
+			}
+		}
+		return fmt.Sprintf("serve_goroutine_gone_at_stop=%d/%d stop_pending=%d", gone, n, pending)
 	}()
 	c.Emit(op, obs)
 }
